@@ -2,6 +2,7 @@ import CwPlus.Lemmas.Ics20
 import CwPlus.Lemmas.Ics20Migrate
 import CwPlus.Lemmas.Ics20Env
 import CwPlus.Lemmas.Ics20TotalSent
+import CwPlus.Lemmas.Ics20Ledger
 /-!
 # C12 — cw20-ics20: channel balance tracks vouchers exactly; error acks change nothing
 
@@ -797,5 +798,81 @@ example : KeysFaithful wL.st.chan := by
   rcases hk with rfl | rfl
   · exact nativeOk_of_take (by decide)
   · trivial
+
+/-! ## All histories (no `admissible` filter); `sent` without re-baselining
+
+`runU` (Lemmas/Ics20Ledger.lean) carries the ghosts over *every* op of a history; its world is `run`. -/
+
+/-- **C12, outstanding_identity on every history** (clause "outstanding = sent − failed/timed-out −
+redeemed, always", without the IBC-core assumption `admissible`): also when acknowledgements / timeouts
+are forged, repeated or name packets never sent — `failed` then counts every failure the contract
+*processed*.  The world of the ghost history is the plain history `run w ops`. -/
+theorem outstanding_identity_all_histories (w : World) (ops : List (Block × Op)) (c : String) (d : Denom) :
+    (runU (w, Ghost.init w) ops).1 = run w ops ∧
+    outstanding (run w ops).st c d + (runU (w, Ghost.init w) ops).2.failed (c, d)
+      + (runU (w, Ghost.init w) ops).2.redeemed (c, d) = (runU (w, Ghost.init w) ops).2.sent (c, d) := by
+  have e : (runU (w, Ghost.init w) ops).1 = run w ops := runU_fst (w, Ghost.init w) ops
+  have h := (runU_ledger ops (ledgerInv_init w)).1 (c, d)
+  rw [e] at h
+  exact ⟨e, h⟩
+
+/-- **C12, sent_tracks_total_sent on every history**: the lock step of the ghost `sent` with the
+contract's own `total_sent` counter, without the `admissible` filter. -/
+theorem sent_tracks_total_sent_all_histories (w : World) (ops : List (Block × Op)) (hwf : WellFormed w.st)
+    (c : String) (d : Denom) :
+    totAt (run w ops).st.chan (c, d) + outstanding w.st c d =
+      (runU (w, Ghost.init w) ops).2.sent (c, d) + totAt w.st.chan (c, d) := by
+  have h0 : TotInv (totAt w.st.chan) (outAt w.st.chan) (w, Ghost.init w) := by
+    intro k; simp only [Ghost.init]; omega
+  have := runU_totInv ops hwf (ledgerInv_init w) h0 (c, d)
+  rw [runU_fst] at this
+  rw [outstanding_eq]; exact this
+
+/-- **C12, `sent` is the sum of the accepted transfers** (clause 1 without the definitional step at a
+migration): for a contract whose stored version is newer than 0.13.0, on every history with `migrate` ops
+anywhere, `outstanding + failedOrTimedOut + redeemed = outstanding₀ + Σ accepted transfers`, where the sum
+(`sentOf`) is read off the transaction outcomes — the packet amount of every accepted transfer on that
+channel and denomination. -/
+theorem outstanding_identity_sum_of_transfers (w : World) (ops : List (Block × Op))
+    (hv : Version.lt MIGRATE_VERSION_3 w.st.version = true) (c : String) (d : Denom) :
+    outstanding (run w ops).st c d + (runU (w, Ghost.init w) ops).2.failed (c, d)
+      + (runU (w, Ghost.init w) ops).2.redeemed (c, d) = outstanding w.st c d + sentOf w ops (c, d) := by
+  obtain ⟨_, h⟩ := outstanding_identity_all_histories w ops c d
+  rw [h]
+  exact runU_sent_postV3 (wg := (w, Ghost.init w)) ops hv (ledgerInv_init w) (c, d)
+
+/-- **C12, the identity from a fresh instantiation, on every history**:
+`outstanding + failedOrTimedOut + redeemed = Σ accepted transfers = total_sent`. -/
+theorem outstanding_identity_fresh_all_histories {m : InstMsg} {s : State} (hi : instantiate m = .ok s) (w : World)
+    (ops : List (Block × Op)) (c : String) (d : Denom) :
+    outstanding (run { w with st := s } ops).st c d + (runU ({ w with st := s }, Ghost.init { w with st := s }) ops).2.failed (c, d)
+      + (runU ({ w with st := s }, Ghost.init { w with st := s }) ops).2.redeemed (c, d) = sentOf { w with st := s } ops (c, d) ∧
+    totAt (run { w with st := s } ops).st.chan (c, d) = sentOf { w with st := s } ops (c, d) := by
+  have h1 := outstanding_identity_sum_of_transfers { w with st := s } ops (instantiate_postV3S hi) c d
+  have h2 := sent_tracks_total_sent_all_histories { w with st := s } ops (instantiate_wellFormed hi) c d
+  have h3 := (outstanding_identity_all_histories { w with st := s } ops c d).2
+  have h0 : outstanding s c d = 0 ∧ totAt s.chan (c, d) = 0 := by
+    simp [instantiate] at hi
+    obtain ⟨_, allow, _, rfl⟩ := hi
+    exact ⟨rfl, rfl⟩
+  simp only [h0.1, h0.2] at h1 h2
+  omega
+
+/-- **C12, handling a packet never aborts, from a fresh instantiation** (`receive_never_aborts` with
+its `Bounded` hypothesis discharged). -/
+theorem receive_never_aborts_fresh {m : InstMsg} {s : State} (hi : instantiate m = .ok s) (w : World)
+    (ops : List (Block × Op)) (blk : Block) (p : PacketIn) (rv tv f : Bool) :
+    ∃ w' o, (run { w with st := s } ops).exec blk (.recv p rv tv f) = .ok (w', o) ∧ o.ack.isSome := by
+  apply receive_never_aborts
+  intro k
+  simp [instantiate] at hi
+  obtain ⟨_, allow, _, rfl⟩ := hi
+  simp [outAt]
+
+/-- `sentOf` on the demo history; with a forged second error acknowledgement of the 60 uatom appended, the
+forged one is refused by the books (nothing outstanding) and the identity holds with `failed = 60`. -/
+example : sentOf w0 hist ("channel-0", .cw20 "T1") = 40 ∧ sentOf w0 hist ("channel-0", .native "uatom") = 60 := by decide
+example : (runU (w0, Ghost.init w0) (hist ++ hist.drop 4)).2.failed ("channel-0", .native "uatom") = 60 ∧
+    outstanding (run w0 (hist ++ hist.drop 4)).st "channel-0" (.native "uatom") = 0 := by decide
 
 end CwPlus.Props.C12
